@@ -143,13 +143,13 @@ func traceRepoTests(pkg, runPattern string, observer func(p *ledger.Projector)) 
 	env := append(os.Environ(), "GOFLAGS=-mod=mod", "GOPROXY=off", "GOSUMDB=off", "GOTOOLCHAIN=local")
 	bin := filepath.Join(dir, "pkg.test")
 	build := exec.Command("go", "test", "-c", "-tags", "verif", "-vet=off", "-o", bin, pkg)
-	build.Dir = "/repo"
+	build.Dir = core.RepoDir
 	build.Env = env
 	if out, err := build.CombinedOutput(); err != nil {
 		return nil, nil, fmt.Errorf("go test -c -tags verif %s failed: %v\n%s", pkg, err, tail(string(out), 2000))
 	}
 	list := exec.Command(bin, "-test.list", runPattern)
-	list.Dir = filepath.Join("/repo", pkg)
+	list.Dir = filepath.Join(core.RepoDir, pkg)
 	list.Env = env
 	out, err := list.Output()
 	if err != nil {
@@ -178,7 +178,7 @@ func traceRepoTests(pkg, runPattern string, observer func(p *ledger.Projector)) 
 			sd := filepath.Join(dir, fmt.Sprintf("shard%02d", i))
 			os.MkdirAll(sd, 0o755)
 			cmd := exec.Command(bin, "-test.run", "^("+strings.Join(shards[i], "|")+")$", "-test.count=1", "-test.timeout=30m")
-			cmd.Dir = filepath.Join("/repo", pkg)
+			cmd.Dir = filepath.Join(core.RepoDir, pkg)
 			cmd.Env = append(env, "VERIF_TRACE_DIR="+sd)
 			if out, err := cmd.CombinedOutput(); err != nil {
 				errs <- fmt.Errorf("repository tests failed under hooks (%v): %s", err, tail(string(out), 1500))
